@@ -1777,17 +1777,21 @@ def check_grid_transfer(ck, fn):
     check_accumulators(ck, fn, g, fkey, calls)
     # ---- local dof indices ----------------------------------------------------------------------
     locmat = {}       # decl of a Tiny matrix/vector local -> list of index-kind tuples seen
+    phi_acc = {}      # evaluation-data object -> [(ok, text, line)]: ONE instance per data object, however many times its phi[] is read (caching a product
+                      # like omega*phi[i] in a local removes reads, it does not remove the obligation)
+    phi_unk = set()
     for n in fn.nodes():
         if n.get("k") == "Index" and n["b"].get("k") == "Member" and n["b"].get("n") == "phi":
             data = n["b"].get("b")
             sd = g.side1(data)
             kd = g.kind(n["idx"])
+            dkey = render(rs.value(data)) if data is not None else "?"
             if sd is None or kd is None or kd[0] == "loop?":
                 ck.incomplete("E2.local-dof-index", "%s: index %s of %s.phi not understood (%s)" % (fkey, render(n["idx"]), render(data), fmt_kind(kd)))
+                phi_unk.add(dkey)
                 continue
             ok = sd is not None and kd == ("ldof", sd)
-            ck.ob("E2.local-dof-index", "%s/%s.phi[%s]@%s" % (fkey, render(data), render(n["idx"]), lhs_name(par, n)), ok,
-                  "basis function data of the %s space indexed with %s" % ({"F": "fine", "C": "coarse"}.get(sd, "?"), fmt_kind(kd)), fn.file, n.get("l"))
+            phi_acc.setdefault((dkey, sd), []).append((ok, "%s.phi[%s] feeding %s: %s" % (render(data), render(n["idx"]), lhs_name(par, n), fmt_kind(kd)), n.get("l")))
         elif n.get("k") == "OpCall" and n.get("op") in ("()", "[]") and strip_targs(n.get("ccls", "") or strip_targs(n.get("callee", "")).rsplit("::", 1)[0]).startswith("FEAT::Tiny::"):
             a = n.get("a", [])
             base = a[0] if a else None
@@ -1805,6 +1809,13 @@ def check_grid_transfer(ck, fn):
                 if prn and prn[0].get("k") == "OpCall" and prn[0].get("op") == "[]" and prn[1] == ("a", 0):
                     continue      # the row part of m[i][j]; handled with the outer node
                 locmat.setdefault(base["d"], []).append((kinds, n))
+    for (dkey, sd), lst in sorted(phi_acc.items()):
+        if dkey in phi_unk:
+            continue
+        bad = [x for x in lst if not x[0]]
+        ck.ob("E2.local-dof-index", "%s/%s.phi" % (fkey, dkey), not bad,
+              ("basis function data of the %s space: " % {"F": "fine", "C": "coarse"}.get(sd, "?")) + ("; ".join("line %s: %s" % (x[2], x[1]) for x in bad) if bad else
+              "all %d reads of phi[] are indexed with a local dof index of the same space" % len(lst)), fn.file, (bad or lst)[0][2])
     # ---- scatter / gather roles -----------------------------------------------------------------
     weight_scatter = []
     mat_scatter = []
@@ -1924,7 +1935,9 @@ def check_grid_transfer(ck, fn):
             elif n_side != rs_:
                 problems.append((iv.get("l"), "invert_matrix is told the dimension %s, expected the number of local dofs of the %s space" % (render(n_arg), rs_)))
     # the format of the mass matrix precedes its assembly in the same loop as the inversion
-    fmts = [c for c in calls if c.get("k") == "MCall" and callee_name(c) == "format" and (c.get("obj") or {}).get("d") == mass_d]
+    fmts = [c for c in calls if (c.get("k") == "MCall" and callee_name(c) == "format" and (c.get("obj") or {}).get("d") == mass_d) or
+            (c.get("k") == "OpCall" and c.get("op") == "=" and len(c.get("a", [])) == 2 and c["a"][0].get("k") == "Ref" and c["a"][0].get("d") == mass_d
+             and unwrap_num(rs, c["a"][1]) == 0.0)]
     il = innermost_loop(par, iv)
     if not any(innermost_loop(par, f) is il and cfg.stmt_dominates(f["i"], iv["i"]) for f in fmts):
         acc_nodes = [node for kinds, node in locmat.get(mass_d, [])]
@@ -2035,6 +2048,9 @@ def check_accumulators(ck, fn, g, fkey, calls, rule="E7.local-accumulator-reset"
         elif k == "Assign" and n.get("op") == "=" and n["lhs"].get("k") == "Ref" and n["lhs"].get("d") in tiny:
             resets.setdefault(n["lhs"]["d"], []).append(n)
             claimed.add(id(n["lhs"]))
+        elif k == "OpCall" and n.get("op") == "=" and len(n.get("a", [])) == 2 and n["a"][0].get("k") == "Ref" and n["a"][0].get("d") in tiny:
+            resets.setdefault(n["a"][0]["d"], []).append(n)          # operator=(value | matrix | initializer list): the whole object is overwritten
+            claimed.add(id(n["a"][0]))
         elif k == "OpCall" and n.get("op") == "()" and re.search(r"::GatherAxpy::operator\(\)$", n.get("callee", "") or ""):
             lv = dfl.arg_by_param(n, "loc_vec")
             d = base_local(lv) if lv is not None else None
@@ -2091,6 +2107,9 @@ def check_accumulators(ck, fn, g, fkey, calls, rule="E7.local-accumulator-reset"
             if good:
                 continue
             if decl_in:
+                ini_ = v.get("init")
+                if ini_ is not None and ini_.get("k") in ("Construct", "TempObj") and len(ini_.get("a", [])) == 1 and unwrap_num(rs, ini_["a"][0]) == 0.0:
+                    continue          # a fresh object per iteration, value-constructed to zero: Tiny::Matrix(DataType(0))
                 doubts.append((a.get("l"), "%s is declared inside the loop; whether its initial value is zero is not modelled" % v["n"]))
                 continue
             if opaque.get(d):
@@ -2124,7 +2143,8 @@ def local_writes(fn, d, skip=()):
             out.append(n)
         elif is_call(n) and n.get("callee") not in dfl.MOVE_FNS:
             recv = dfl.receiver(n)
-            if recv is not None and recv.get("k") == "Ref" and recv.get("d") == d and not n.get("cconst") and n.get("k") == "MCall":
+            if recv is not None and recv.get("k") == "Ref" and recv.get("d") == d and not n.get("cconst") and (
+                    n.get("k") == "MCall" or (n.get("k") == "OpCall" and n.get("op") in ("=", "+=", "-=", "*="))):
                 out.append(n)
             else:
                 for a, pn_, pt_ in dfl.call_args_with_params(n, fn):
@@ -2342,6 +2362,16 @@ def check_mesh_permutation(ck, facts, rule="E2.mesh-permutation-dims"):
             return a + b if e["op"] == "+" else (a - b if e["op"] == "-" else a * b)
         return None
     seen = set()
+    extent_of = {}        # (class, member array) -> extent, read from the subscript sites of the class
+    for fn in facts.functions:
+        if fn.tk == "pattern" or strip_targs(fn.cls) != "FEAT::Geometry::MeshPermutation":
+            continue
+        for n in fn.nodes():
+            if n.get("k") in ("OpCall", "MCall") and (n.get("ccls") or "").startswith("std::array<"):
+                b_ = norm._strip(n["a"][0] if n.get("k") == "OpCall" and n.get("a") else n.get("obj"))
+                m_ = re.search(r", (\d+)>$", n["ccls"].strip())
+                if b_ is not None and b_.get("k") == "Member" and b_.get("field") and m_:
+                    extent_of[(fn.cls, b_.get("n"))] = int(m_.group(1))
     for fn in facts.functions:
         if fn.tk == "pattern" or strip_targs(fn.cls) != "FEAT::Geometry::MeshPermutation" or fn.cfg is None:
             continue
@@ -2378,13 +2408,42 @@ def check_mesh_permutation(ck, facts, rule="E2.mesh-permutation-dims"):
                 elif lr is None and iv is not None and iv.get("k") == "Ref" and iv.get("dk") == "local" and iv.get("d") in mods_ and any(
                         any(a_ is L for a_, s_ in dfl.enclosing_stmt_chain(par, m_)) for m_ in mods_[iv["d"]]):
                     hits.append((bb.get("n"), int(m.group(1)), n))
-            if not hits:
+            rng = norm._strip(L.get("range")) if L.get("k") == "ForRange" else None
+            rng_field = rng.get("n") if rng is not None and rng.get("k") == "Member" and rng.get("field") and (fn.cls, rng.get("n")) in extent_of else None
+            if not hits and rng_field is None:
                 continue
             nloop += 1
-            key = "%s::%s/loop#%d(%s)" % (short(fn.cls.replace("FEAT::", "")), fn.name, nloop, ",".join(sorted({h[0] for h in hits})))
+            key = "%s::%s/loop#%d(%s)" % (short(fn.cls.replace("FEAT::", "")), fn.name, nloop, ",".join(sorted({h[0] for h in hits} | ({rng_field} if rng_field else set()))))
             if (key, fn.line) in seen:
                 continue
             seen.add((key, fn.line))
+            if rng_field is not None:
+                # a range-for over a per-dimension member array visits every dimension by construction; other member arrays may be subscripted with a unit
+                # running counter that starts at 0 and is advanced after its uses (then it equals the dimension of the iteration)
+                E = extent_of[(fn.cls, rng_field)]
+                bad_, shifted_ = [], []
+                for nm_, ext_, node_ in hits:
+                    ixn = node_["a"][1] if node_.get("k") == "OpCall" else (node_["a"][0] if node_.get("k") == "MCall" else node_.get("idx"))
+                    iv_ = norm._strip(ixn)
+                    rc_ = norm.running_counter(fn, par, L, iv_["d"], node_) if iv_ is not None and iv_.get("k") == "Ref" else None
+                    st_ = norm._strip(rc_["start"]) if rc_ else None
+                    if not (rc_ is not None and rc_["phase"] == 0 and ext_ == E and st_ is not None and st_.get("k") == "Int" and str(st_.get("v")) == "0"
+                            and (rc_["step"] is None or const_of(rc_["step"], 0, rs) == 1)):
+                        lo_ = const_of(rc_["start"], 0, rs) if rc_ is not None else None
+                        if rc_ is not None and lo_ is not None and (rc_["step"] is None or const_of(rc_["step"], 0, rs) == 1) and ext_ == E:
+                            shifted_.append((nm_, lo_ + rc_["phase"]))       # understood, but not the dimension of the iteration
+                        else:
+                            bad_.append(nm_)
+                if shifted_:
+                    ck.ob(rule, key, False, "range-for over %s at line %s: %s" % (rng_field, L.get("l"), "; ".join(
+                        "%s is subscripted with dimensions %d .. %d instead of 0 .. %d (entry 0 is never processed, the last access runs past the array)" % (nm_, lo_, lo_ + E - 1, E - 1)
+                        for nm_, lo_ in sorted(set(shifted_)))), fn.file, L.get("l"))
+                elif bad_:
+                    ck.incomplete(rule, "%s: range-for over %s at line %s; the subscript of %s is not a recognised unit running counter" % (key, rng_field, L.get("l"), ", ".join(sorted(set(bad_)))))
+                else:
+                    ck.ob(rule, key, True, "range-for over the member array %s (all %d entity dimensions)%s" % (
+                        rng_field, E, "; %s subscripted with a unit running counter" % ", ".join(sorted({h[0] for h in hits})) if hits else ""), fn.file, L.get("l"))
+                continue
             extents = {h[1] for h in hits}
             if lr is None or lr["sign"] < 0 or len(extents) != 1:
                 ck.incomplete(rule, "%s: the loop at line %s over the per-dimension arrays is not a recognised ascending counting loop" % (key, L.get("l")))
@@ -2503,7 +2562,7 @@ def declare_rules(ck):
     ck.rule("E2.child-cell-map", "CoarseFineCellMapping is built from (fine mesh, coarse mesh) and calc_fcell receives (ccell = coarse cell in 2-level ordering, child = child number); "
             "swapped arguments pick cells of other parents for every mesh with more cells than children", 13)
     ck.rule("E2.local-dof-index", "basis function arrays phi[] of the fine (coarse) space data are indexed by a loop variable bounded by the number of local dofs of the same space; "
-            "wrong for every element pair with different local dof counts, transposes the local matrix otherwise", 52)
+            "wrong for every element pair with different local dof counts, transposes the local matrix otherwise (one instance per evaluation-data object of an assembler)", 26)
     ck.rule("E1.scatter-roles", "local matrices are scattered with (row_map, col_map) = mappings of the spaces the function's own XASSERTs equate with (rows, columns) "
             "(prolongation: fine x coarse, truncation: coarse x fine); local vectors with the mapping of the space their size is asserted to have", 29)
     ck.rule("E6.local-mass-inverse", "X = set_mat_mat_mult(a = the matrix handed to Math::invert_matrix (dominating, re-formatted in the same loop, dimension = local dofs of the row space), "
